@@ -206,13 +206,13 @@ DLV_RULE = (" DLV: the ENC generator with delivery variants: integer vs packed-b
 PROPS["C01"] = {
     "coq": "theories/Props/C01.v",
     "theorems": ["C01_subframe_lossless", "C01_frame_lossless", "C01_zigzag_inverse", "C01_fixed_predictors", "C01_midside",
-                 "C01_decoder_reads_subframe", "C01_subframe_ops_are_these_bits", "C01_bytes_carry_the_bits", "C01_subframe_bytes_decode_to_input"],
+                 "C01_decoder_reads_subframe", "C01_subframe_ops_are_these_bits", "C01_bytes_carry_the_bits", "C01_subframe_bytes_decode_to_input",
+                 "C01_encoder_subframes_verify", "C01_subframe_end_to_end"],
     "streams": "ENC+DLV", "rule": "ENC+DLV",
     "oracle": lambda pid, res, driver: enc_oracle(pid, res, driver) + enc_oracle(pid, res, driver, "DLV"),
     "assumptions": ["PARTIAL: proved are the meaning of the emitted components (predictors, residual coding, stereo) and that the independent "
                     "decoder reads exactly that meaning from the bits/bytes a verified subframe serialises to; frame framing (header fields, CRCs, "
-                    "padding), STREAMINFO and 'encoder subframes pass verification' are decided per run by the extracted independent decoder on "
-                    "the implementation's output",
+                    "padding) and STREAMINFO are decided per run by the extracted independent decoder on the implementation's output",
                     "named hypothesis lpc_fits (LPC residuals representable in i32) - evaluated by the model on every case",
                     "a panic inside the floating-point estimators cannot be exhibited by the model (monitored only)"],
 }
@@ -628,18 +628,24 @@ PAR_RULE = ("PAR: multi-threaded encoding of 0..9 blocks (+ optional short tail)
 
 PROPS["C05"] = {
     "coq": "theories/Props/C05.v",
-    "theorems": ["C05_all_schedules_w1_b1", "C05_all_schedules_w2_b1", "C05_all_schedules_w1_b0"],
+    "theorems": ["C05_all_schedules_w1_b1", "C05_all_schedules_w2_b1", "C05_all_schedules_w1_b0", "C05_par_refines_seq",
+                 "C05_invariant_init", "C05_invariant_step"],
     "streams": "PAR+DLV", "rule": "PAR+DLV",
     "oracle": par_oracle,
-    "assumptions": ["PARTIAL: theorems cover finite instances by complete schedule exploration; atomicity is that of the hook points; "
-                    "crossbeam channels and std Mutex are trusted to be linearizable FIFO queues / locks"],
+    "assumptions": ["the general theorem is about the LTS of Model/Par.v (all W, all block counts, all fault plans, all schedules); atomicity is that "
+                    "of the hook points; crossbeam channels and std Mutex are trusted to be linearizable FIFO queues / locks; that par.rs "
+                    "follows the LTS is checked by trace validation (complete search over linearisations of every recorded event log)",
+                    "a frame is identified by its number: encoding a block is a function of the block (C10) and of the number"],
 }
 PROPS["C06"] = {
     "coq": "theories/Props/C06.v",
-    "theorems": ["C06_read_failure_w1", "C06_invalid_block_w1"],
+    "theorems": ["C06_every_schedule_is_short", "C06_potential_decreases", "C06_failures_propagate", "C06_final_no_thread_left",
+                 "C06_read_failure_w1", "C06_invalid_block_w1"],
     "streams": [PAR_STREAM], "rule": PAR_RULE,
     "oracle": par_oracle,
-    "assumptions": ["PARTIAL: finite-instance theorems; real thread exit and wall-clock termination are observed, not proved",
+    "assumptions": ["PARTIAL: deadlock freedom is proved for finite instances only (complete exploration) and observed on the implementation; "
+                    "termination (no infinite schedule), failure propagation and 'nothing left running at the final state' are proved for all W, "
+                    "block counts, fault plans and schedules of the LTS; real thread exit and wall-clock termination are observed",
                     "the 20 s timeout that decides 'hang' is > 100x the fault-free run time of the generated cases"],
 }
 
